@@ -5,6 +5,7 @@ package proxy
 import (
 	"context"
 	"io"
+	"net"
 	"net/http"
 	"net/url"
 	"strings"
@@ -200,7 +201,7 @@ func VPH_C07_gate() {
 		t.RedirectCode = 302
 		t.RedirectURL = &url.URL{Scheme: "https", Host: "elsewhere", Path: "/x"}
 	}
-	upstream := vp.Choice("upstream", 5) // ok, timeout, net error, EOF, canceled
+	upstream := vp.Choice("upstream", 7) // ok, timeout, net error, EOF, canceled, *net.OpError timeout, *net.OpError other
 	rt := &vpRT{resp: &http.Response{StatusCode: 200, Header: http.Header{}, Body: vpNoBody{}}}
 	switch upstream {
 	case 1:
@@ -211,6 +212,10 @@ func VPH_C07_gate() {
 		rt.resp, rt.err = nil, io.EOF
 	case 4:
 		rt.resp, rt.err = nil, context.Canceled
+	case 5:
+		rt.resp, rt.err = nil, &net.OpError{Op: "dial", Net: "tcp", Err: vpNetErr{timeout: true}}
+	case 6:
+		rt.resp, rt.err = nil, &net.OpError{Op: "read", Net: "tcp", Err: vpNetErr{}}
 	}
 	w := &vpRW{hdr: http.Header{}}
 	p := vpProxy(t, rt, config.Proxy{})
@@ -234,10 +239,11 @@ func VPH_C07_gate() {
 		switch upstream {
 		case 0:
 			vp.Assert(w.code == 200, "upstream-status")
-		case 1:
+		case 1, 5:
+			// 1 is the shape of net/http's response-header timeout: a net.Error that is no *net.OpError
 			vp.Cover("timeout")
 			vp.Assert(w.code == 504, "timeout-is-504")
-		case 2, 3:
+		case 2, 3, 6:
 			vp.Assert(w.code == 502, "connection-error-is-502")
 		default:
 			vp.Assert(w.code == 499, "client-cancel-is-499")
